@@ -7,7 +7,7 @@ export GOFLAGS=-mod=mod GOPROXY=off GOSUMDB=off GOTOOLCHAIN=local RUNEWIDTH_EAST
 W=../.work; mkdir -p $W/cov $W/covout; rm -rf $W/cov/*
 PK=$(go list -deps . | grep pennock | tr '\n' ',' | sed 's/,$//')
 go build -cover -covermode=atomic -coverpkg=verifharness,$PK -o $W/harness-cov . || exit 1
-for p in C01 C02 C03 C03D20 C04 C05 C06 C07 C08 C09 C10 C11 C12 C13 C14 C15 C17 C18 C19 L03 L04 L05 L06 L07 L08 L09 L14 L15 X02; do
+for p in C01 C02 C03 C03D20 C04 C05 C06 C07 C08 C09 C10 C11 C12 C13 C14 C15 C17 C18 C19 L03 L04 L05 L06 L07 L08 L09 L14 L15 X02 H09 G01 G02 G03 G04 G05 G06 G07 G08 G09 G10 G11 G12 G13 G14 G15 G18 G19 S11 B02 Z03 Z05 Z06 Z07 Z08; do
   VERIF_COVDIR=$W/cov GOCOVERDIR=$W/cov $W/harness-cov -mode gen -prop $p -seed ${VERIF_SEED:-1} -n ${1:-300} -out $W/covout >/dev/null 2>&1
 done
 VERIF_COVDIR=$W/cov GOCOVERDIR=$W/cov $W/harness-cov -mode decorations -out $W/covout >/dev/null 2>&1
